@@ -70,44 +70,71 @@ class CodeGenerator:
         return self.builder.module
 
     def gen_global_ival(self, ival, typ):
-        """Create memory image for initial value"""
+        """Create memory image for initial value.
+
+        The image is a list of bytes and of references to labels, which
+        are given as (ir.ptr, name).
+        """
         typ = self.context.get_type(typ)
         if isinstance(typ, ast.ArrayType):
             assert isinstance(ival, ast.ExpressionList)
             assert len(ival.expressions) == self.context.eval_const(typ.size)
-            mem = bytes()
+            mem = []
             for expr in ival.expressions:
-                mem = mem + self.gen_global_ival(expr, typ.element_type)
+                mem.extend(self.gen_global_ival(expr, typ.element_type))
             return mem
         elif isinstance(typ, ast.StructureType):
             assert isinstance(ival, ast.NamedExpressionList)
             assert len(ival.expressions) == len(typ.fields)
-            mem = bytes()
+            mem = []
             for field, val in zip(typ.fields, ival.expressions):
                 assert field.name == val[0]
                 expr = val[1]
-                mem = mem + self.gen_global_ival(expr, field.typ)
+                mem.extend(self.gen_global_ival(expr, field.typ))
             return mem
-        elif isinstance(typ, ast.FloatType):
-            cval = self.context.eval_const(ival)
+
+        cval = self.context.eval_const(ival)
+        if isinstance(typ, ast.FloatType):
             cval = self.context.pack_float(cval, bits=typ.bits)
-            return cval
         elif isinstance(typ, ast.SignedIntegerType):
-            cval = self.context.eval_const(ival)
             cval = self.context.pack_int(cval, bits=typ.bits, signed=True)
-            return cval
         elif isinstance(typ, ast.UnsignedIntegerType):
-            cval = self.context.eval_const(ival)
             cval = self.context.pack_int(cval, bits=typ.bits, signed=False)
-            return cval
+        elif self.context.equal_types(typ, "bool"):
+            # Booleans are stored as integers:
+            cval = self.context.pack_int(int(cval), bits=typ.byte_size * 8)
+        elif isinstance(typ, ast.PointerType):
+            if isinstance(cval, str):
+                # The address of the text:
+                cval = (ir.ptr, self.gen_global_string(cval).name)
+            else:
+                bits = self.context.pointerSize * 8
+                cval = self.context.pack_int(cval, bits=bits, signed=False)
+        else:
+            raise SemanticError(f"Cannot initialize {typ}", ival.loc)
+        return [cval]
+
+    def gen_global_string(self, txt):
+        """Create a variable with the data of a string"""
+        data = self.context.pack_string(txt)
+        name = f"__c3_txt_{len(self.builder.module.variables)}"
+        ir_var = ir.Variable(name, ir.Binding.LOCAL, len(data), 4, value=data)
+        self.builder.module.add_variable(ir_var)
+        return ir_var
 
     def gen_globals(self, module):
         """Generate global variables and modules"""
         for var in module.inner_scope.variables:
             assert not var.isLocal
             if var.ival:
-                cval = self.gen_global_ival(var.ival, var.typ)
-                cval = (cval,)
+                # Glue the pieces of data together:
+                cval = []
+                for part in self.gen_global_ival(var.ival, var.typ):
+                    if cval and type(cval[-1]) is type(part) is bytes:
+                        cval[-1] += part
+                    else:
+                        cval.append(part)
+                cval = tuple(cval)
             else:
                 cval = None
 
